@@ -117,7 +117,7 @@ def _member(sel, cur, k: int, cq: str, cid: str, idx: int, b: Built, defined: li
         lines = ["def __init__(self, v: int) -> None:"]
         for nm, ty, ann in (("iv" + n, INT(), ""), ("iw" + n, STR(), ": str")):
             var = shim.var(nm, ty, fullname=f"{cq}.{nm}", is_inferred=not ann)
-            stmts.append(shim.assignment([shim.member_expr(nm, shim.name_expr("self", "self"), node=var)],
+            stmts.append(shim.assignment([shim.member_expr(nm, shim.self_expr(), node=var)],
                                          unanalyzed_type=shim.unbound("str") if ann else None))
             lines.append(f"    self.{nm}{ann} = " + ("v" if not ann else '""'))
             add({"kind": "attribute", "id": f"{cid}/{nm}", "owner": cid, "name": nm, "static": False})
@@ -125,14 +125,40 @@ def _member(sel, cur, k: int, cq: str, cid: str, idx: int, b: Built, defined: li
         tx, ty_ = "ix" + n, "iy" + n
         vx = shim.var(tx, INT(), fullname=f"{cq}.{tx}", is_inferred=True)
         vy = shim.var(ty_, INT(), fullname=f"{cq}.{ty_}", is_inferred=True)
-        stmts.append(shim.assignment([shim.tuple_expr([shim.member_expr(tx, shim.name_expr("self", "self"), node=vx),
-                                                       shim.member_expr(ty_, shim.name_expr("self", "self"), node=vy)])]))
+        stmts.append(shim.assignment([shim.tuple_expr([shim.member_expr(tx, shim.self_expr(), node=vx),
+                                                       shim.member_expr(ty_, shim.self_expr(), node=vy)])]))
         lines.append(f"    self.{tx}, self.{ty_} = v, v")
         for nm in (tx, ty_):
             add({"kind": "attribute", "id": f"{cid}/{nm}", "owner": cid, "name": nm, "static": False})
+        # targets that define no attribute of this class, and nested / starred targets that do
+        da = "da" + n
+        vda = shim.var(da, INT(), fullname=f"{cq}.{da}", is_inferred=True)
+        stmts.append(shim.assignment([shim.member_expr(da, shim.self_expr(), node=vda)]))
+        stmts.append(shim.assignment([shim.index_expr(shim.member_expr(da, shim.self_expr(), node=vda), shim.str_expr("k"))]))
+        lines += [f"    self.{da} = v", f"    self.{da}[\"k\"] = v"]
+        add({"kind": "attribute", "id": f"{cid}/{da}", "owner": cid, "name": da, "static": False})
+        na, nb, nc = "na" + n, "nb" + n, "nc" + n
+        vs = {x: shim.var(x, INT() if x != nc else shim.instance("builtins.list", [INT()]), fullname=f"{cq}.{x}", is_inferred=True)
+              for x in (na, nb, nc)}  # the starred target collects a list
+        stmts.append(shim.assignment([shim.tuple_expr([
+            shim.member_expr(na, shim.self_expr(), node=vs[na]),
+            shim.tuple_expr([shim.member_expr(nb, shim.self_expr(), node=vs[nb]),
+                             shim.star_expr(shim.member_expr(nc, shim.self_expr(), node=vs[nc]))])])]))
+        lines.append(f"    self.{na}, (self.{nb}, *self.{nc}) = v, (v, v)")
+        for x in (na, nb, nc):
+            add({"kind": "attribute", "id": f"{cid}/{x}", "owner": cid, "name": x, "static": False})
+        vlx, vly = (shim.var(x, INT(), fullname=x, is_inferred=True) for x in ("lx", "ly"))
+        stmts.append(shim.assignment([shim.tuple_expr([shim.name_expr("lx", "lx", node=vlx), shim.name_expr("ly", "ly", node=vly)])]))
+        lines.append("    lx, ly = v, v")
+        vother = shim.var("other", None, fullname="other", is_inferred=True)
+        stmts.append(shim.assignment([shim.name_expr("other", "other", node=vother)]))
+        stmts.append(shim.assignment([shim.member_expr("oq" + n, shim.name_expr("other", "other", node=vother), node=None)]))
+        stmts.append(shim.assignment([shim.member_expr("sub" + n, shim.member_expr(da, shim.self_expr(), node=vda), node=None)]))
+        lines += ["    other = self", f"    other.oq{n} = v", f"    self.{da}.sub{n} = v"]
+        b.features.add("constructor-targets")
         if again:  # re-assignment of an attribute the class body already defines: must not register a second one
             var = shim.var(again, INT(), fullname=f"{cq}.{again}")
-            stmts.append(shim.assignment([shim.member_expr(again, shim.name_expr("self", "self"), node=var)]))
+            stmts.append(shim.assignment([shim.member_expr(again, shim.self_expr(), node=var)]))
             lines.append(f"    self.{again} = v")
         stmts.append(shim.assignment([shim.name_expr("local", "local", node=shim.var("local", INT(), fullname="local", is_inferred=True))]))
         lines.append("    local = 3")
